@@ -109,3 +109,7 @@ impl ZXKey {
         }
     }
 }
+
+#[cfg(kani)]
+#[path = "/verif/hooks/core/keys.rs"]
+mod verif_hooks;
